@@ -121,13 +121,25 @@ APP_TAGS = ['distribution', 'identifiers', 'start_sequence', 'stop_sequence', 's
             'starting_failure_strategy', 'running_failure_strategy', 'operational_status']
 
 
+ID_ATOMS = ['n1', 'n2', 'n3', 'n4', 'n9', 'al1', 'al2', 'al3', '#', '@', '*', 'st1', '', '10.0.0.1:25000']
+RULE_STRESS = '0123456789' * 2 + '+-_ .eEtrufalsTRUEyno'
+
+
+def gen_ids(rnd):
+    if rnd.random() < 0.7: return rnd.choice(IDS)
+    return ','.join(rnd.choice(['', ' ']) + rnd.choice(ID_ATOMS) + rnd.choice(['', ' ']) for _ in range(rnd.randint(1, 5)))
+
+
 def gen_children(rnd, valid, kind):
     """ children (tag, text) of a program/model (kind 'p') or application (kind 'a') element """
-    pick = lambda ok, anyv: rnd.choice(ok if valid else anyv)
+    def pick(ok, anyv):
+        if not valid and rnd.random() < 0.08:
+            return ''.join(rnd.choice(RULE_STRESS) for _ in range(rnd.randint(1, 6)))
+        return rnd.choice(ok if valid else anyv)
     f = []
     if kind == 'p':
         if rnd.random() < 0.45: f.append(('reference', rnd.choice(REFS[:5] if valid and rnd.random() < 0.9 else REFS)))
-        if rnd.random() < 0.5: f.append(('identifiers', rnd.choice(IDS)))
+        if rnd.random() < 0.5: f.append(('identifiers', gen_ids(rnd)))
         if rnd.random() < 0.6: f.append(('start_sequence', pick(SEQ_OK, SEQ_ANY)))
         if rnd.random() < 0.4: f.append(('stop_sequence', pick(SEQ_OK, SEQ_ANY)))
         if rnd.random() < 0.5: f.append(('required', pick(BOOL_OK, BOOL_ANY)))
@@ -137,7 +149,7 @@ def gen_children(rnd, valid, kind):
         if rnd.random() < 0.4: f.append(('running_failure_strategy', pick(RFS_OK, RFS_ANY)))
     else:
         if rnd.random() < 0.4: f.append(('distribution', pick(DIST_OK, DIST_ANY)))
-        if rnd.random() < 0.5: f.append(('identifiers', rnd.choice(IDS)))
+        if rnd.random() < 0.5: f.append(('identifiers', gen_ids(rnd)))
         if rnd.random() < 0.6: f.append(('start_sequence', pick(SEQ_OK, SEQ_ANY)))
         if rnd.random() < 0.4: f.append(('stop_sequence', pick(SEQ_OK, SEQ_ANY)))
         if rnd.random() < 0.4: f.append(('starting_strategy', pick(STRAT_OK, STRAT_ANY)))
@@ -175,7 +187,7 @@ def gen_doc_case(rnd, path):
     hostile = rnd.random() < 0.04
     items = []
     for an in rnd.sample(['al1', 'al2', 'al3', 'al1'], rnd.randint(0, 4)) if rnd.random() < 0.8 else ():
-        items.append(['alias', an, rnd.choice(ALIAS_VALUES)])
+        items.append(['alias', an, rnd.choice(ALIAS_VALUES) if rnd.random() < 0.7 else gen_ids(rnd)])
     for mn in rnd.sample(['m1', 'm2', 'm3', 'm4', 'm1'], rnd.randint(0, 5)):
         items.append(['model', {'name': mn}, gen_children(rnd, valid, 'p')])
     for _ in range(rnd.randint(1, 4)):
@@ -302,9 +314,11 @@ def table_lines(case):
                 except re.error:
                     lines.append(f"match {hx(p)} {hx(n)} err")
     for f in sorted({v for it in items if it[0] == 'app' for t, v in it[2] if t == 'operational_status' and v}):
+        # acceptance of a formula is the business of C15: the REAL `status_formula` setter decides (ast.parse + shape test)
         try:
-            ok = len(ast.parse(f).body) == 1
-        except SyntaxError:
+            ApplicationRules(FakeSupvisors([], case['mapper'])).status_formula = f
+            ok = True
+        except Exception:
             ok = False
         if ok: lines.append(f"formula {hx(f)}")
     m = case['mapper']
@@ -445,7 +459,8 @@ def gen_value(rnd, key):
 
 
 def gen_opts_case(rnd):
-    """ 1-3 option dictionaries built one after the other in the same interpreter (as after a Supvisors restart) """
+    """ 1-3 option dictionaries built one after the other in the same interpreter (as after a Supvisors restart): the
+        effective options must be a function of each dictionary alone (regression of b925545) """
     cfgs = []
     for _ in range(rnd.choice([1, 1, 1, 2, 3])):
         keys = [k for k in OPTION_KEYS if rnd.random() < 0.3]
@@ -561,7 +576,6 @@ def still_fails_factory(chk, workdir, case, sig, qline):
     """ predicate for the shrinker: the same query still gives the same signature on the reduced document """
     def rebuild(items):
         c = dict(case); c['items'] = items; c['split'] = None
-        words = qline.split()
         return c
     def still(items):
         c = rebuild(items)
@@ -572,7 +586,6 @@ def still_fails_factory(chk, workdir, case, sig, qline):
 
 
 def shrink_doc(chk, workdir, case, sig, qline):
-    rebuild, still = still_fails_factory(chk, workdir, case, sig, qline)
     ws = qline.split()
     small = dict(case)
     # keep only the failing query (and the application query that feeds its inherited strategies)
@@ -580,7 +593,6 @@ def shrink_doc(chk, workdir, case, sig, qline):
     if ws[0] == 'qprog': small['queries'] = [['qapp', uh(ws[1])], ['qprog', uh(ws[1]), uh(ws[2])]]
     elif ws[0] == 'qapp': small['queries'] = [['qapp', uh(ws[1])]]
     else:
-        idx = next((k for k, q in enumerate(case['queries']) if q[0] == ws[0] and hx(q[1]) == ws[1]), None)
         qs = [q for q in case['queries'] if q[0] in ('group', 'groupadd')]
         small['queries'] = [['qapp', uh(ws[1])]] + qs
     case2 = dict(small); case2['split'] = None
@@ -688,6 +700,10 @@ def run_cases(chk, cases, workdir, stats, do_shrink=True):
                 stats['shrinks'] += 1
                 try:
                     small = shrink_opts(chk, workdir, case, sig) if case['kind'] == 'opts' else shrink_doc(chk, workdir, case, sig, q['query_line'])
+                    for _, _, _, _, fs2, _, _ in judge_batch(chk, [small], workdir):
+                        hit = next((f for f in fs2 if f[0] == sig), None)
+                        if hit: what, q = hit[1], hit[2]
+                        else: small = case
                 except Exception:
                     small = case
             chk.reject(sig, what, dict(q, case=small))
@@ -744,7 +760,9 @@ def run(chk):
     quick = chk.tier == 'quick'
     stats = new_stats()
     regen_consts(chk)
-    chk.prove('Supv.Props.C18', extra_targets=['drv_c18'])
+    ok = chk.prove('Supv.Props.C18', extra_targets=['drv_c18'])
+    if ok and not quick:
+        chk.leanchecker(['Supv.Props.C18', 'Supv.Lemmas.Rules', 'Supv.Spec.C18', 'Supv.Model.Rules'])
     workdir = tempfile.mkdtemp(prefix='supv-verif-c18-', dir='/var/tmp')
     try:
         run_cases(chk, load_corpus(), workdir, stats)
@@ -794,7 +812,11 @@ def run(chk):
                     'process shell with process_index/rules)',
                     'lean/Supv/Drv/C18.lean (op-line parser, hex transport, observation printer/parser)',
                     'tools/extract_c18.py (constants, enumerations and literal bounds read from the source)',
-                    'Python `re` (match lengths and re.error supplied to the model as data), `ast.parse` (formula acceptance supplied as data)',
+                    'Python `re` (match lengths and re.error supplied to the model as data); acceptance of an operational_status formula by the '
+                    'real `ApplicationRules.status_formula` setter (ast.parse + shape test, property C15) supplied to the model as data',
+                    'modelled, validated by the correspondence, not verified: CPython float() (correct rounding of decimal literals in '
+                    '[0.1, 1e5), nan/inf spellings), int(), str.strip/lower/upper on ASCII, list.sort of short lists (count_run + binary '
+                    'insertion, needed for nan items), distutils strtobool, supervisor list_of_strings/boolean/byte_size',
                     'libxml2 XSD validation (documents refused by the XSD are only checked to be refused by an exception)',
                     'XML parsing itself (lxml / ElementTree): the model starts from the element tree']
     chk.assumptions += ['strings are printable ASCII + ASCII white space (Python int()/float()/strip/lower/upper re-implemented for that '
